@@ -126,6 +126,16 @@ fn gen_case(rng: &mut Rng) -> Case {
         doc.extend(open.as_bytes());
     }
     let mut mode = String::from("ns");
+    if (ctx == 2 || ctx == 3) && rng.chance(1, 4) {
+        // a root of the same vocabulary nested in the island and closed again: the tags that
+        // follow are still inside the outer root
+        let root = if ctx == 3 { "math" } else { "svg" };
+        doc.extend(wl::encode_lossy_drop(enc, &wl::gen_start_tag(rng, root)).into_iter().filter(|b| *b != b'/'));
+        if rng.bool() {
+            doc.extend(if ctx == 3 { &b"<mrow></mrow>"[..] } else { &b"<g></g>"[..] });
+        }
+        doc.extend(format!("</{root}>").as_bytes());
+    }
     for _ in 0..rng.range(1, 3) {
         let name = match ctx {
             // incl. names that are void *in HTML* and do not break out of foreign content
